@@ -635,11 +635,30 @@ static void gen_bitflips(int maxhops)
 				char fd[40];
 
 				snprintf(fd, sizeof(fd), "sig%d.ski", k);
-				/* the flipped SKI is also registered, so that the key lookup succeeds and the digest decides */
+				/* SKIs of older segments are signed: the flip must not leave the path VALID (no key is registered for it either) */
 				FLIP_CASE(fd, SKI_SIZE * 8, flip(p.sig[k].ski, bit));
 				snprintf(fd, sizeof(fd), "sig%d.length", k);
 				FLIP_CASE(fd, 16, (p.sig[k].len ^= 0x8000 >> bit));
 			}
+			/*
+			 * a Signature Segment whose SKI is one bit away from a registered one (the most recent segment's SKI is
+			 * in no digest, so only the key lookup can refuse it): no key exists for that SKI, the answer must be
+			 * ROUTER_KEY_NOT_FOUND whichever of the 160 bits differs
+			 */
+			for (int k = 0; k < n; k++)
+				for (size_t bit = 0; bit < SKI_SIZE * 8; bit++, idx++) {
+					if (idx % nshards != shard)
+						continue;
+					p = p0;
+					snprintf(crumb, sizeof(crumb), "{\"gen\":\"ski-near-miss\",\"afi\":%d,\"hops\":%d,\"segment\":%d,\"bit\":%zu}", afi, n, k, bit);
+					v_crumb("C11|ski-near-miss", crumb);
+					flip(p.sig[k].ski, bit);
+					V_COUNT("bit_flips", 1);
+					snprintf(crumb, sizeof(crumb), "\"ski_bit_flipped\":{\"segment\":%d,\"bit\":%zu}", k, bit);
+					judge(&p, &ks, "ski-near-miss", crumb);
+					if ((idx & 127) == 0 && v_deadline_passed())
+						return;
+				}
 			for (int k = 0; k < n; k++) {
 				char fd[40];
 
